@@ -265,3 +265,87 @@ for _pat in [(False, False, False), (True, False, False), (False, False, True)]:
     _cls = type('CropWrite_' + ''.join('N' if x else 'r' for x in _pat), (CropWrite,), dict(none=_pat))
     register(_cls, 'cropping.py::SgzCropper.write_cropped_file_by_indexes', ['C10', 'C03', 'C05'], CFG_DEFAULT + [CFG_ZSLICE[0], CFG_GENERAL[5]], modes=('file',),
              tag='none:' + ''.join('1' if x else '0' for x in _pat))
+
+
+# ---------------------------------------------------------------------------------------------
+# coordinate front end (C10): line numbers / sample times -> index ranges, then the index cropper
+
+from pyvc.contract import Contract as _Contract      # noqa: E402
+
+
+class _CropByIndexView(_Contract):
+    """call-site view of write_cropped_file_by_indexes (CropWrite contracts): records the index ranges it is asked for"""
+    modular_use = True
+    exact_result = True
+    variant = 'call-site view'
+    only_in = ('SgzCropper.write_cropped_file_by_coords',)
+
+    def verify(self, interp, prog, timeout_ms=None):
+        from pyvc.smt import Explorer
+        ex = Explorer(self.fuc_name()); ex.contract = self; ex.prog = prog
+        ex.note_outcome('call-site view (the function has its own contract)')
+        return ex, prog.function(self.key)
+
+    def fresh_result(self, c, a):
+        c.ghost.setdefault('crop_calls', []).append(a)
+        return None
+
+
+fuc('cropping.py::SgzCropper.write_cropped_file_by_indexes', props=[], modular=True)(_CropByIndexView)
+
+
+class CropByCoords(CropContract):
+    """write_cropped_file_by_coords: each given (start, stop) pair of line numbers is turned into the positions of those numbers on the file's
+    axis (stop may be one increment past the end = the axis length), a missing pair stays None, and the index cropper is called once with them;
+    a number that is not on the axis -> IndexError before anything is written.  Inline / crossline ranges given, sample range None."""
+    may_raise = ()
+    incs = (1, 1)
+
+    def inputs(self, c):
+        g, rd = self.reader(c)
+        d = dict(self=rd, _g=g, out_file='<out>', zslices_coord_range=None)
+        info = {}
+        for (nm, ax, n), dconc in zip((('iline_coord_range', 'ilines', g.nI), ('xline_coord_range', 'xlines', g.nX)), self.incs):
+            a0, d0 = rd.fields[ax].prog
+            c.assume(eq(d0, dconc))          # concrete axis increments per variant (keeps the number -> position arithmetic linear)
+            dd = dconc
+            arr = SArray((n,), (lambda a0_, d_: (lambda idx: add(a0_, mul(idx[0], d_))))(a0, dd), 'int32')
+            arr.prog = (a0, dd)
+            rd.fields[ax] = arr
+            lo = c.sym_int(nm + '_lo', name=f'{nm}[0]'); hi = c.sym_int(nm + '_hi', name=f'{nm}[1]')
+            d[nm] = (lo, hi)
+            info[nm] = (a0, dd, n, lo, hi)
+        d['_info'] = info
+        return d
+
+    def pos(self, a0, dd, v):
+        return fdiv(sub(v, a0), dd)
+
+    def on(self, a0, dd, n, v, stop_ok):
+        k = self.pos(a0, dd, v)
+        return And(eq(mod(sub(v, a0), dd), 0), ge(k, 0), le(k, n) if stop_ok else lt(k, n))
+
+    def raises(self, c, a):
+        conds = []
+        for nm, (a0, dd, n, lo, hi) in a['_info'].items():
+            conds += [self.on(a0, dd, n, lo, True), self.on(a0, dd, n, hi, True)]
+        return {'IndexError': Not(And(*conds))}
+
+    def post_raise(self, c, a, cls):
+        c.ensure(mk_bool(len(c.ghost.get('crop_calls', [])) == 0 and len(c.ghost.get('opened', [])) == 0), 'refusal_before_anything_is_written', kind='ghost')
+
+    def post(self, c, a, result):
+        calls = c.ghost.get('crop_calls', [])
+        c.ensure(mk_bool(len(calls) == 1), 'index_cropper_called_once')
+        if len(calls) != 1:
+            return
+        k = calls[0]
+        c.ensure(mk_bool(k['out_file'] == '<out>' and k['self'] is a['self'] and k['zslices_index_range'] is None), 'same_output_file_and_no_sample_range')
+        for nm, arg in (('iline_coord_range', 'iline_index_range'), ('xline_coord_range', 'xline_index_range')):
+            a0, dd, n, lo, hi = a['_info'][nm]
+            got = k[arg]
+            c.ensure(mk_bool(isinstance(got, tuple) and len(got) == 2) and And(eq(got[0], self.pos(a0, dd, lo)), eq(got[1], self.pos(a0, dd, hi))), f'{arg}_is_the_positions_of_the_given_numbers')
+
+
+for _incs in ((1, 1), (2, 3), (-2, 5)):
+    register(type('CropByCoords', (CropByCoords,), dict(incs=_incs)), 'cropping.py::SgzCropper.write_cropped_file_by_coords', ['C10', 'C05'], [CFG_DEFAULT[3]], modes=('file',), tag=f'increments {_incs[0]}/{_incs[1]}')
